@@ -23,12 +23,12 @@ CLAIMS = {
     'C16': dict(
         category='exploration', technique='deterministic simulation: seeded query histories on a fresh lazily-parsed database (lookups in any order, interleaved full loads, mutation of handed-out copies) against a full-load reference; text/binary round trips through the simulated disk with short reads',
         engine='history-machine+E2-simfs',
-        text='(a) Lazy histories: a fresh EngineDB (fgd.lzma) receives seeded sequences of get_ent / EntityDef.engine_def for existing, alias, unknown and mixed-case names, get_classnames / engine_classes, an interleaved get_fgd and mutations of every copy handed out; each answer must equal the definition from a database loaded in full first (class, kind, alias flag, bases and whether they are resolved, keyvalues with type/display name/default/flags, inputs/outputs, resources). (b) The complete bundled database is exported to text on the simulated disk, parsed back and exported again (fixed point, fields equal up to the documented I/O type decay), and serialised/unserialised in the binary format. (c) Generated FGDs (every value type, empty display names/defaults/descriptions, strings over 1000 characters with and without spaces, tagged duplicates, bases, spawnflags, choices, resources) go through the text cycle under seeded options and short reads; generated engine-format FGDs large enough for the binary format are serialised, unserialised and queried lazily in a seeded order with the generating spec as ground truth.',
+        text='(a) Lazy histories: a fresh EngineDB (fgd.lzma) receives seeded sequences of get_ent / EntityDef.engine_def for existing, alias, unknown and mixed-case names, get_classnames / engine_classes, an interleaved get_fgd and mutations of every copy handed out; each answer must equal the definition from a database loaded in full first (class, kind, alias flag, bases and whether they are resolved, keyvalues with type/display name/default/flags, inputs/outputs, resources). (b) The complete bundled database is exported to text on the simulated disk, parsed back and exported again (fixed point, fields equal up to the documented I/O type decay), and serialised/unserialised in the binary format. (c) Generated FGDs (every value type, empty display names/defaults/descriptions, strings over 1000 characters with and without spaces, tagged duplicates, bases, spawnflags, choices, resources) go through the text cycle under seeded options and short reads; generated engine-format FGDs large enough for the binary format are serialised, unserialised and queried lazily in a seeded order with the generating spec as ground truth. Strings include generated long texts whose escapes crowd around the exporter's 1000-character split points; returned copies are edited directly and through their .kv/.inp/.out views.',
         note='Descriptions/helpers are not stored by the binary format and are generated empty there; boolean defaults blank vs 0 and spawnflags display names are normalised as the text syntax requires.', ref='5/C16'),
     'C05': dict(
         category='exploration', technique='seeded operation histories over an object pool with invariants evaluated after every step (claimed on the histories quantifier; no seam or fault exists for this property and the evidence says so)',
         engine='history-machine',
-        text='Seeded histories (4-40 operations) over a pool of Vec/FrozenVec/Angle/FrozenAngle/Matrix/FrozenMatrix objects whose results are fed back as operands: constructor forms, with_axes, setters, *=, @ and @= over every operand type pair, reflected @ with tuples, transform() blocks, to_angle(), from_basis, from_str, copy/deepcopy/pickle, freeze/thaw, str/format/join, vector arithmetic; start values include tiny negatives, exact multiples of 360 and values within 1e-12..1e-3 of the poles. After every step: every Angle component in [0,360); component and hash snapshots of every frozen object unchanged; copies equal to and independent of their source; text form matches -?digits(.1-6 digits), never -0, and parses back within 5e-7 (angles modulo 360).',
+        text='Seeded histories (4-40 operations) over a pool of Vec/FrozenVec/Angle/FrozenAngle/Matrix/FrozenMatrix objects whose results are fed back as operands: constructor forms, with_axes, setters, *=, @ and @= over every operand type pair, reflected @ with tuples, transform() blocks, to_angle(), from_basis, from_str, copy/deepcopy/pickle, freeze/thaw, str/format/join, vector arithmetic; start values include tiny negatives, exact multiples of 360 and values within 1e-12..1e-3 of the poles. After every step: every Angle component in [0,360); component and hash snapshots of every frozen object unchanged; copies equal to and independent of their source; text form matches -?digits(.1-6 digits), never -0, and parses back within 5e-7 (angles modulo 360). Operations cover construction, item/attribute assignment, every augmented and binary operator, rotations by Angle/Matrix, conversions, min/max/clamp/lerp/bbox, axis_angle and the deprecated rotation helpers, copy/deepcopy/pickle, freeze/thaw.',
         note='Python twin only; two open known findings (text "-0" for Vec and FrozenVec) are suppressed by exact fingerprint because a pinned repository test fixes that output.', ref='5/C05'),
     'C18': dict(
         category='exploration', technique='simulated disk as seam monitor: every path reaching the OS seam during a call is recorded; seeded search over path spellings, root spellings, working directories and chain prefixes (weak fit for simulation, labelled as such: no schedule or fault dimension)',
@@ -38,7 +38,7 @@ CLAIMS = {
     'C19': dict(
         category='exploration', technique='differential simulation over one in-memory disk: four storage back-ends materialised from the same seeded file set, dict reference model, chain construction histories (weak fit for simulation, labelled as such)',
         engine='E2-simfs',
-        text='A seeded file set (nested folders, mixed-case names, names and folders that are string prefixes of others) is materialised as VirtualFileSystem, a zip written with zipfile, a VPK written with the library and a directory tree on the simulated disk. Seeded query spellings (case changes, both slashes) must agree with a folded, slash-normalised dict on in / [] / open_bin; walk_folder for seeded folders ("", prefix-of-sibling, mixed case, backslash, trailing slash, missing) must list exactly the files inside, each listed name must resolve and open to its bytes, iteration equals walk_folder(""); chains built by seeded add_sys(prefix, priority) sequences over up to 4 members (names shared between members, also in another letter case) must return the first member\'s content, address prefixed members relative to their prefix, and list each name once.',
+        text='A seeded file set (nested folders, mixed-case names, names and folders that are string prefixes of others) is materialised as VirtualFileSystem, a zip written with zipfile, a VPK written with the library and a directory tree on the simulated disk. Seeded query spellings (case changes, both slashes) must agree with a folded, slash-normalised dict on in / [] / open_bin; walk_folder for seeded folders ("", prefix-of-sibling, mixed case, backslash, trailing slash, missing) must list exactly the files inside, each listed name must resolve and open to its bytes, iteration equals walk_folder(""); chains built by seeded add_sys(prefix, priority) sequences over up to 4 members (names shared between members, also in another letter case) must return the first member\'s content, address prefixed members relative to their prefix, and list each name once; zips are also written with explicit directory entries and opened as already-open archives sharing one label, and members are re-added to a chain (with and without priority).',
         note='Directory backend judged for exact-case spellings only; names unique case-insensitively within one set.', ref='5/C19'),
     'C10': dict(
         category='exploration', technique='deterministic simulation: seeded access/save/reopen histories on an in-memory disk over given files (committed corpus, generated maps, container variants from an independent codec, sample map), judged by an independent container decoder plus the reader on fresh objects',
@@ -53,22 +53,22 @@ CLAIMS = {
     'C17': dict(
         category='exploration', technique='deterministic simulation: seeded collapse histories over shared cached templates, reference rotation/naming models as oracle, bounded liveness of collapse_all on recursive graphs measured on a deterministic step clock (collapse_one calls)',
         engine='history-machine+stepclock',
-        text='1-3 seeded templates (brushes with displacements/point data, point and brush entities of real FGD classes with position-, angle- and name-typed keys, outputs, $variables, nested func_instance entities with fixups) and 1-6 placements (identity / axis-aligned / arbitrary angles, three fixup styles, fixup tables) are collapsed in a seeded order through one cached InstanceFile per template. After every collapse: the template (export text, params, proxies, entity fixups) is unchanged; what the placement added equals what it adds when collapsed alone (order independence); the placed result equals the identity collapse transformed by an independent plain-math Source rotation (positions, texture axes with the offset law, displacement data, point data, orientation keys compared as matrices); names and $variables follow three-line reference functions. Recursive graphs (self / mutual, branching 1-2, default and small recur_limit) must end in a return or RecursionError within a budget of collapse_one calls.',
+        text='1-3 seeded templates (brushes with displacements/point data, point and brush entities of real FGD classes with position-, angle- and name-typed keys, outputs, $variables, nested func_instance entities with fixups) and 1-6 placements (identity / axis-aligned / arbitrary angles, three fixup styles, fixup tables) are collapsed in a seeded order through one cached InstanceFile per template. After every collapse: the template (export text, params, proxies, entity fixups) is unchanged; what the placement added equals what it adds when collapsed alone (order independence); the placed result equals the identity collapse transformed by an independent plain-math Source rotation (positions, texture axes with the offset law, displacement data, point data, orientation keys compared as matrices); names and $variables follow three-line reference functions. Recursive graphs (self / mutual, branching 1-2, default and small recur_limit) must end in a return or RecursionError within a budget of collapse_one calls, for every spelling (case, slashes) of the file references; a non-recursive chain must collapse completely with the prefix of the named top-level instances on every name. After each collapse no mutable object may be shared between the cached template and the copies, and the target's entity/brush/face IDs stay unique. Lights carry the negated-pitch key, judged against their rotated angles.',
         note='Pitch kept away from +-90 degrees; only the curated key types are judged; FGD database trusted as configuration.', ref='5/C17'),
     'C09': dict(
         category='exploration', technique='deterministic simulation: seeded object specs, copy, then a seeded history of in-place mutations on one side with the other side observed after every step; identity-based aliasing walker; operand snapshots for operators',
         engine='history-machine',
-        text='Entities (with brushes, outputs, fixups), brushes, faces (displacements power 1-4 with multiblend, allowed verts, point data), outputs, nested visgroups, Keyvalues trees and EntityFixup objects are built from seeded specs and copied within a map or across maps (and through copy.copy/deepcopy/pickle/+/+=/extend where applicable). Completeness: observation and export text of the copy equal the original apart from IDs. Independence: a generic walker over slots/attrs/containers reports any mutable object reachable from both sides, and a seeded list of in-place mutations (translate, localise, key/fixup/output/vertex edits, in-place arithmetic on every reachable vector) on one side must leave the other side\'s observation unchanged after every step. Operators: operands of Keyvalues + and Vec/Angle/Matrix binary operators (all operand type pairs) are snapshotted before and after.',
+        text='Entities (with brushes, outputs, fixups), brushes, faces (displacements power 1-4 with multiblend, allowed verts, point data), outputs, nested visgroups, Keyvalues trees and EntityFixup objects are built from seeded specs and copied within a map or across maps (and through copy.copy/deepcopy/pickle/+/+=/extend where applicable). Completeness: observation and export text of the copy equal the original apart from IDs. Independence: a generic walker over slots/attrs/containers reports any mutable object reachable from both sides, and a seeded list of in-place mutations (translate, localise, key/fixup/output/vertex edits, in-place arithmetic on every reachable vector) on one side must leave the other side\'s observation unchanged after every step. Operators: operands of Keyvalues + and Vec/Angle/Matrix binary operators (all operand type pairs) are snapshotted before and after. Fixup tables are observed through behaviour (substitute, items) as well as stored fields.',
         note='Objects are sampled; IDs (incl. node IDs) excluded from completeness; owning VMF shared by design.', ref='5/C09'),
     'C08': dict(
         category='exploration', technique='deterministic simulation: seeded operation histories with a scheduled heap (harness-owned references, gc disabled, drop/collect as steps deciding when finalizers release IDs), invariant after every step',
         engine='history-machine+E3-heap',
-        text='Seeded histories over two maps: entities, solids, sides, prisms, visgroups and groups created with desired IDs (negative, zero, duplicates of live IDs, huge), copy() within and across maps, add/remove/re-add, nodeid edits, fixup set/delete/construct/copy, export+parse and generated documents with colliding/zero/missing IDs, interleaved with heap events (drop the last reference, collect) under a seeded GC policy, so the finalizer that releases an ID runs before, between or after removal and re-issue. After every step the IDs of live objects of each kind (reachable from the map or held and never removed) must be pairwise distinct positive integers; fixup indexes distinct and >= 1.',
+        text='Seeded histories over two maps: entities, solids, sides, prisms, visgroups and groups created with desired IDs (negative, zero, duplicates of live IDs, huge), copy() within and across maps, add/remove/re-add, nodeid edits, fixup set/delete/construct/copy, export+parse and generated documents with colliding/zero/missing IDs, interleaved with heap events (drop the last reference, collect) under a seeded GC policy, so the finalizer that releases an ID runs before, between or after removal and re-issue. After every step the IDs of live objects of each kind (reachable from the map or held and never removed) must be pairwise distinct positive integers; fixup indexes distinct and >= 1. Creation paths: constructors with desired IDs, copy within and across maps, parse of documents with colliding / zero / negative / missing IDs, export+parse, and collapse_one of generated instance maps numbered from 1.',
         note='preserve_ids=True maps exempt; live-set definition stated in evidence assumptions; histories sampled.', ref='5/C08'),
     'C06': dict(
         category='exploration', technique='deterministic simulation: maps reached by seeded API histories, exported through a simulated text file (host newline mode) and delivered to the parser under seeded chunk/file schedules; observation walker + ID bijection as oracle',
         engine='history-machine+E1-stream+E2-simfs',
-        text='Seeded map specs (entities, outputs in both separator/instance forms, fixups, hidden objects, brush entities, prisms and arbitrary faces, displacements power 1-4 with vertex data, multiblend and allowed verts, nested visgroups, groups, cameras, cordons, Strata viewports/point data) are realised through the public API, mutated by a seeded API history, exported (minimal/disp_multiblend seeded), sent through a simulated file in \\n or \\r\\n mode and a seeded delivery schedule, parsed (preserve_ids seeded) and exported again. Every observed field of the re-parsed map must equal the original within the stated tolerances (IDs up to a consistent per-kind bijection) and the second text must equal the first; all .vmf files under tests/ are also cycled.',
+        text='Seeded map specs (entities, outputs in both separator/instance forms, fixups, hidden objects, brush entities, prisms and arbitrary faces, displacements power 1-4 with vertex data, multiblend and allowed verts, nested visgroups, groups, cameras, cordons, Strata viewports/point data) are realised through the public API, mutated by a seeded API history, exported (minimal/disp_multiblend seeded), sent through a simulated file in \\n or \\r\\n mode and a seeded delivery schedule, parsed (preserve_ids seeded) and exported again. Every observed field of the re-parsed map must equal the original within the stated tolerances (IDs up to a consistent per-kind bijection) and the second text must equal the first; all .vmf files under tests/ are also cycled. In 40% of runs the first parse result is then edited in place all over, the same text is parsed again and must give the first observation exactly, and the two object graphs must share no mutable object.',
         note='Map contents are sampled; strings avoid what the format cannot represent; one open known finding (negative-zero text) is suppressed by exact fingerprint.', ref='5/C06'),
     'C07': dict(
         category='exploration', technique='deterministic simulation: seeded operation histories with swarm-disabled op kinds, cooperative reader tasks (live iterators stepped between mutations), invariant vs. a scan reference model after every step',
@@ -83,7 +83,7 @@ CLAIMS = {
     'C12': dict(
         category='fault_enumeration', technique='deterministic simulation with fault injection: in-memory disk behind open/os.*, complete single-fault enumeration per workload (kill before/after/torn at every disk operation, every legal errno, sticky ENOSPC, short write, EINTR), baton-passed two-writer interleavings',
         engine='E2-simfs',
-        text='Each seeded workload (destination state, stale temp files, body script with writes straddling the buffer size, body exception, writer reuse, bytes/text, host newline mode, buffer size) is first run fault-free to obtain NEW and its N disk operations; then every single-fault plan over those N operations is executed on a fresh simulated disk and the frozen disk (after a kill) or the disk after the handled failure is judged: destination is exactly OLD or NEW, bystanders untouched, no temp file left by a handled failure, restart on the surviving bytes succeeds. Two writers run as real threads parked at every disk operation; all (i,j) boundary pairs and seeded interleavings are executed. Complete for the single-fault space of each explored workload; workloads themselves are sampled.',
+        text='Each seeded workload (destination state, stale temp files, body script with writes straddling the buffer size, body exception, writer reuse, bytes/text, host newline mode, buffer size) is first run fault-free to obtain NEW and its N disk operations; then every single-fault plan over those N operations is executed on a fresh simulated disk and the frozen disk (after a kill) or the disk after the handled failure is judged: destination is exactly OLD or NEW, bystanders untouched, no temp file left by a handled failure, restart on the surviving bytes succeeds. Two writers run as real threads parked at every disk operation; all (i,j) boundary pairs and seeded interleavings are executed. BSP.save workloads on committed corpus maps run under sampled plans of the same space (destination old or new, never opened for writing itself, temp cleaned up). Complete for the single-fault space of each explored AtomicWriter workload; workloads themselves are sampled.',
         note='Process-kill crash model (no power-loss reordering); SimFS validated against a real directory (tools/fidelity.py); CPython io layers are the real ones.', ref='5/C12'),
     'C01': dict(
         category='exploration', technique='deterministic simulation: seeded tree workload x serialise options x seeded chunk/file delivery schedules, reference model = the tree',
@@ -98,7 +98,7 @@ CLAIMS = {
     'C03': dict(
         category='fault_enumeration', technique='deterministic simulation: seeded chunk-delivery schedules + stream fault injection (truncation, decode fault), differential against single-string delivery, line-event step clock',
         engine='E1-stream',
-        text='Seeded search over delivery schedules (every single cut for short texts, bounded-exhaustive texts up to length 3/4 over the syntax alphabet, multi-cuts, empty chunks, lines, file object with short raw reads) and injected stream faults (EOF at any instant, decode error at chunk k) of the real Python Tokenizer and Keyvalues.parse; totality, sticky EOF, a linear step budget on a deterministic line-event clock and equality with the single-string delivery are checked on every run. Evidence, not proof, beyond the enumerated bound.',
+        text='Seeded search over delivery schedules (every single cut for short texts, bounded-exhaustive texts up to length 3/4 over the syntax alphabet, multi-cuts, empty chunks, lines, file object with short raw reads) and injected stream faults (EOF at any instant, decode error at chunk k) of the real Python Tokenizer and Keyvalues.parse; totality, sticky EOF, a linear step budget on a deterministic line-event clock and equality with the single-string delivery are checked on every run; Keyvalues.parse is also entered through a tokenizer the caller built (with and without a file name) and must still raise KeyValError only. Evidence, not proof, beyond the enumerated bound.',
         note='Pure-Python tokenizer only (Cython twin cannot be built offline); reference = same tokenizer on one string; CPython io layers trusted.', ref='5/C03'),
 }
 
